@@ -21,11 +21,11 @@ PREFIX = "X05."
 
 QUICK = dict(PtsN="{0, 1, 2, 3}", TrackProfiles="{0, 1, 2}", ImgN="{0, 1, 2}", ImgProfiles="{0, 1, 2}",
              CamN="{0, 1, 3}", CamStarts="{0, 3, 6, 9}", SfmRecs="{0, 1, 2}", SfmPts="{0, 1, 3}",
-             Styles='{"min", "pretty"}', AttrSets="{1, 2, 3, 4, 5}", UniverseId="1", MaxPx="2",
+             Styles='{"min", "pretty"}', AttrSets="{1, 2, 3, 4, 5}", UniverseId="1", MaxPx="2", BothOrders="FALSE",
              Scales="{64, 65536}", NodeProfiles="{0, 1, 2}")
 THOROUGH = dict(QUICK, PtsN="{0, 1, 2, 3, 4}", ImgN="{0, 1, 2, 3}", CamN="{0, 1, 2, 3, 4}",
                 CamStarts="{0, 1, 2, 3, 4, 5, 6, 7, 8, 9, 10}", SfmPts="{0, 1, 2, 3}",
-                Styles='{"min", "pretty", "exp"}', UniverseId="2", Scales="{1, 64, 1024, 65536}")
+                Styles='{"min", "pretty", "exp"}', UniverseId="2", BothOrders="TRUE", Scales="{1, 64, 1024, 65536}")
 
 INVARIANTS = "Emit TilesInv PrefixClosed StrictLaw HierLaw OctLaw RecLaw Budget"
 FORMATS = ("cpts", "cimg", "ccam", "osfm", "pmeta", "phier", "pnode")
